@@ -5,7 +5,11 @@ _ENG = {"crate": "core", "bin": "sv-c15", "machine": "c15", "nontrivial_min_ops"
 PROP = {
     "generated": ["ReconEqConsts"],
     "lean_modules": ["SwimVerif.Model.ReconEq", "SwimVerif.Model.ReconEqProto", "SwimVerif.Proofs.ReconEq",
-                     "SwimVerif.Proofs.ReconEqCmp", "SwimVerif.Proofs.ReconEqValid", "SwimVerif.Proofs.ReconEqMat", "SwimVerif.Proofs.ReconEqLeaves", "SwimVerif.Proofs.ReconEqHash", "SwimVerif.Model.Recon", "SwimVerif.Model.ReconProto",
+                     "SwimVerif.Proofs.ReconEqCmp", "SwimVerif.Proofs.ReconEqValid", "SwimVerif.Proofs.ReconEqMat", "SwimVerif.Proofs.ReconEqLeaves", "SwimVerif.Proofs.ReconEqHash",
+                     "SwimVerif.Proofs.ReconEqTok", "SwimVerif.Proofs.ReconEqRun", "SwimVerif.Proofs.ReconEqPrinted",
+                     "SwimVerif.Proofs.ReconEqTop", "SwimVerif.Proofs.ReconEqFinal", "SwimVerif.Proofs.ReconEqBlind",
+                     "SwimVerif.Proofs.Recon", "SwimVerif.Proofs.ReconFloat", "SwimVerif.Proofs.ReconStruct", "SwimVerif.Proofs.ReconStyles",
+                     "SwimVerif.Model.Recon", "SwimVerif.Model.ReconProto",
                      "SwimVerif.Generated.ReconTables", "SwimVerif.Generated.ReconEqConsts"],
     "engines": [
         # printer output only (what the backpressure layer holds as keys): one value through two of the three printers,
